@@ -56,6 +56,31 @@ func buildPools(r rng, n int) *apiPools {
 		if a, err, pn := realWrite(f, encCfg{LP: true, EBCDIC: false}); err == nil && pn == nil {
 			p.x9A = append(p.x9A, a)
 		}
+		// the same file with control records that do not match its content (an upload is stored as read:
+		// nothing recomputes them until somebody builds the file)
+		st := deepCopyFile(f)
+		for ci := range st.CashLetters {
+			for _, b := range st.CashLetters[ci].Bundles {
+				if b.BundleControl != nil {
+					b.BundleControl.BundleTotalAmount += 1
+					b.BundleControl.MICRValidTotalAmount += 2
+					b.BundleControl.BundleImagesCount += 1
+					b.BundleControl.UserField = "STALE"
+				}
+			}
+			if c := st.CashLetters[ci].CashLetterControl; c != nil {
+				c.CashLetterItemsCount += 1
+				c.CashLetterImagesCount += 1
+			}
+		}
+		st.Control.TotalRecordCount += 1
+		st.Control.FileTotalAmount += 1
+		if e, err, pn := realWrite(st, encCfg{LP: true, EBCDIC: true}); err == nil && pn == nil {
+			p.x9E = append(p.x9E, e)
+		}
+		if a, err, pn := realWrite(st, encCfg{LP: true, EBCDIC: false}); err == nil && pn == nil {
+			p.x9A = append(p.x9A, a)
+		}
 		// header bodies
 		h := f.Header
 		h.ImmediateOriginName = fmt.Sprintf("ORIGIN%d", k)
@@ -68,6 +93,26 @@ func buildPools(r rng, n int) *apiPools {
 			cb, _ := json.Marshal(c)
 			p.cashLts = append(p.cashLts, namedBytes{"valid-cashletter", cb, false})
 			p.clIDs = append(p.clIDs, c.ID)
+			// the same cash letter as a client would post it before any build: derived members blank, stale
+			// or absent (added as it is - the handler does not rebuild)
+			var ml any
+			json.Unmarshal(cb, &ml)
+			blankLengths(ml)
+			if mm, ok := ml.(map[string]any); ok {
+				mm["id"] = fmt.Sprintf("l%d-%d", k, ci)
+				p.clIDs = append(p.clIDs, mm["id"].(string))
+			}
+			lb, _ := json.Marshal(ml)
+			p.cashLts = append(p.cashLts, namedBytes{"cashletter-without-lengths", lb, false})
+			var m any
+			json.Unmarshal(cb, &m)
+			blankDerived(m)
+			if mm, ok := m.(map[string]any); ok {
+				mm["id"] = fmt.Sprintf("r%d-%d", k, ci)
+				p.clIDs = append(p.clIDs, mm["id"].(string))
+			}
+			rb, _ := json.Marshal(m)
+			p.cashLts = append(p.cashLts, namedBytes{"raw-cashletter", rb, false})
 		}
 	}
 	doc := p.jsonDocs[0]
@@ -110,6 +155,50 @@ func buildPools(r rng, n int) *apiPools {
 	)
 	p.clIDs = append(p.clIDs, "nh1", "nb1")
 	return p
+}
+
+// blankDerived removes / zeroes the members a build would compute: embedded lengths, control totals,
+// sequence and record numbers.
+func blankDerived(v any) {
+	switch x := v.(type) {
+	case map[string]any:
+		for k, c := range x {
+			switch k {
+			case "lengthImageData", "lengthImageReferenceKey", "lengthDigitalSignature":
+				delete(x, k)
+			case "bundleItemsCount", "bundleTotalAmount", "micrValidTotalAmount", "bundleImagesCount", "cashLetterItemsCount",
+				"cashLetterTotalAmount", "cashLetterImagesCount", "cashLetterBundleCount":
+				x[k] = 0
+			case "bundleSequenceNumber", "eceInstitutionItemSequenceNumber":
+				x[k] = ""
+			default:
+				blankDerived(c)
+			}
+		}
+	case []any:
+		for _, c := range x {
+			blankDerived(c)
+		}
+	}
+}
+
+// blankLengths removes only the embedded length members of the image view data records.
+func blankLengths(v any) {
+	switch x := v.(type) {
+	case map[string]any:
+		for k, c := range x {
+			switch k {
+			case "lengthImageData":
+				delete(x, k)
+			default:
+				blankLengths(c)
+			}
+		}
+	case []any:
+		for _, c := range x {
+			blankLengths(c)
+		}
+	}
 }
 
 func lastRecordOffset(lp []byte) int {
@@ -297,6 +386,7 @@ type apiStep struct {
 	store  string // abstraction of the repository after the request
 	before string // deep snapshot before
 	after  string // deep snapshot after
+	reused string // server-generated ID that was already taken (or the uploaded document's own)
 }
 
 // runHistoryReal executes a generated history against a fresh server.
@@ -312,7 +402,25 @@ func runHistoryReal(g *apiGen, reg *registry, n int, fixed []*apiReq) []apiStep 
 			q = g.next()
 		}
 		st := apiStep{q: q, before: env.storeSnap()}
+		taken := map[string]bool{}
+		if fs, err := env.repo.GetFiles(); err == nil {
+			for _, f := range fs {
+				taken[f.ID] = true
+			}
+		}
 		st.r = env.do(q)
+		if st.r.Status == 201 && (q.Kind == "c2" || q.Kind == "c1") {
+			var up struct {
+				ID string `json:"id"`
+			}
+			isJSON := strings.Contains(q.CT, "application/json") && json.Unmarshal(q.Body, &up) == nil
+			id := createdID(st.r)
+			// v2 always draws a new ID; v1 keeps the ID of a JSON upload and draws one otherwise
+			mustBeFresh := q.Kind == "c2" || !isJSON || up.ID == ""
+			if mustBeFresh && (taken[id] || (isJSON && up.ID != "" && id == up.ID)) {
+				st.reused = id
+			}
+		}
 		st.after = env.storeSnap()
 		st.line = env.modelLine(q, st.r)
 		st.store = env.storeDump()
@@ -422,6 +530,9 @@ func runAPI(cfg *config, prop string) *Report {
 			if mstore != s.store {
 				rep.CorrDisagree++
 				rep.violate(Violation{Key: prop + ":store-differs:" + s.q.Kind, What: "after " + s.q.Kind + " the repository holds " + s.store + " but the reference map holds " + mstore, Replay: replay})
+			}
+			if s.reused != "" {
+				rep.violate(Violation{Key: "C11:create-reused-id:" + s.q.Kind, What: "a create that must store the upload under a new ID answered with " + s.reused + ", an ID already taken / the upload's own: an existing file is replaced instead of a new one being listed", Replay: replay})
 			}
 			// 3. property predicates on the implementation itself
 			if isReadKind(s.q.Kind) && s.before != s.after {
